@@ -175,7 +175,7 @@ def run_rep(np, ode, rng, kinds, rf, order, ic, prm, frc, q0, Dm, Vm, Am, krf, f
             Lm = np.eye(ntot)
             for _ in range(50):
                 Le = np.eye(ne) + 0.3 * rng.standard_normal((ne, ne))
-                if np.linalg.cond(Le) <= 30:
+                if np.linalg.cond(Le) <= 10:
                     break
             Lm[np.ix_(elpos, elpos)] = Le
             M = Lm @ M; B = Lm @ B; K = Lm @ K; F = Lm @ F
